@@ -66,10 +66,14 @@ class Judge:
                       'mem_shared_multichain': 0, 'cont_resumed': 0, 'error_dir_checked': 0, 'records_checked': 0}
         self.abstract_states = []
         self.proc = None
+        self.cur_multi = False
 
     # ------------------------------------------------------------------ helpers
     def disc(self, prop, inv, i, msg, **detail):
         self.discs.append(Disc(prop=prop, inv=inv, op=i, msg=msg, detail=detail))
+        if self.cur_multi and prop in ('C01', 'C02', 'C04'):
+            # a member chain of a MultiChain must behave as the standalone chain of its config (C13)
+            self.discs.append(Disc(prop='C13', inv=inv, op=i, msg='member chain differs from standalone chain: ' + msg, detail=detail))
 
     def model(self, root, outer):
         k = (root, outer)
@@ -102,6 +106,8 @@ class Judge:
                     continue
                 if 'skip' in (o.get('res') or {}):
                     continue
+                ch = self.proc['chains'].get(op.get('cid'))
+                self.cur_multi = op['op'] in ('mbuild', 'mforce') or bool(ch and ch['registry'][0] == 'multi')
                 getattr(self, 'j_' + op['op'])(op, o)
                 if o.get('crash'):
                     self.proc['dead'] = True
@@ -803,6 +809,13 @@ class Eval:
         # ---- loads touch nothing upstream, modify nothing
         if self.loads and not self.pred:
             self._check_pure_load(name)
+        if not self.loads and not self.pred and not tainted:
+            # served from memory: nothing is read from or written to the store
+            ev = [f for f in self.o['fs'] if not _is_work_path(f[1])]
+            if ev:
+                j.disc('C13' if j.cur_multi else 'C04', 'I-memory', op['i'], f'{name}: value held in memory was not served from memory', fs=ev[:4])
+            elif j.cur_multi:
+                j.stats['mem_shared_multichain'] += 1
         # ---- outcome
         if outcome == 'fail':
             if 'ok' in res:
